@@ -75,6 +75,8 @@ func (fr *Frame) exec(in ssa.Instruction, st *State, g string) {
 				ck = "." + x.Common().Method.Name()
 			} else if sc := x.Common().StaticCallee(); sc != nil {
 				ck = funcKey(sc)
+			} else if bi, isB := x.Common().Value.(*ssa.Builtin); isB {
+				ck = bi.Name() // `hint after append E` / `hint after copy E`: builtins by name; callresult is the builtin's result
 			}
 			fr.lastCallRes = res // `hint after` clauses may name the callee's results: callresult, callresult0, callresult1 ...
 			fr.applyHints("after", ck, x.Block(), st, g, nil)
@@ -456,6 +458,13 @@ func (fr *Frame) binop(x *ssa.BinOp, st *State, g string) {
 		return
 	}
 	fr.setVal(x, "Int", r)
+	if phi, isPhi := x.X.(*ssa.Phi); isPhi && x.Op == token.ADD && phi.Comment == "rangeindex" {
+		// the increment of a range loop's index: spell out the no-wrap case of addw as a ground implication (a consequence of addw's
+		// definition, so always sound). Without it some solver configurations spend their time in the ite of the wrap-around
+		// arithmetic whenever an invariant relates the old and the new index (C34: ParseCustodianUpdateNodesExtra [content]).
+		sum := app("+", a.t, b.t)
+		fc.emit(fmt.Sprintf("(assert (=> (and (<= %s %s) (< %s %s)) (= %s %s)))", los, sum, sum, his, fr.vals[x].t, sum))
+	}
 	switch x.Op {
 	case token.OR, token.XOR, token.AND_NOT, token.SHR, token.AND:
 		// uninterpreted bit operations stay within the type
@@ -794,6 +803,7 @@ func (fr *Frame) ret(x *ssa.Return, st *State, g string) {
 		}
 		fr.applyHints("return", "", x.Block(), st, g, res)
 		fr.checkFrame(st, g, "return", x.Pos(), nil)
+		fr.checkDeleteOnly(st, g, x) // `modifies m[-]` (ext_c24.go)
 		env := fr.specEnv(st, fr.entry)
 		fr.bindResults(env, res)
 		for i, cl := range fr.spec.Ensures {
